@@ -762,6 +762,7 @@ class MultiStream(Stream):
                 data[phase_index, IDs_index] = original_data[phase_index, IDs_index]
                 if remove:
                     excluded_data = other_data[phase_index, IDs_index]
+                    if hasattr(excluded_data, 'copy'): excluded_data = excluded_data.copy()
                     other_data[:] = 0.
                     other_data[phase_index, IDs_index] = excluded_data
             else:
@@ -770,6 +771,7 @@ class MultiStream(Stream):
                 data[phase_index, IDs_index] = original_data[phase_index, IDs_index]
                 if remove and (phase is ... or phase_index == other_phase_index):
                     excluded_data = other_data[IDs_index]
+                    if hasattr(excluded_data, 'copy'): excluded_data = excluded_data.copy()
                     other_data[:] = 0.
                     other_data[IDs_index] = excluded_data   
         elif multiphase:
